@@ -2135,16 +2135,17 @@ class Cluster(object):
 
         log.debug("Removing host %s", host)
         host.set_down()
+        # first of all, so that no reconnection attempt of the removed host can succeed
+        # (and re-add it) while the rest of the removal is in progress
+        reconnection_handler = host.get_and_set_reconnection_handler(None)
+        if reconnection_handler:
+            reconnection_handler.cancel()
         self.profile_manager.on_remove(host)
         for session in tuple(self.sessions):
             session.on_remove(host)
         for listener in self.listeners:
             listener.on_remove(host)
         self.control_connection.on_remove(host)
-
-        reconnection_handler = host.get_and_set_reconnection_handler(None)
-        if reconnection_handler:
-            reconnection_handler.cancel()
 
     def signal_connection_failure(self, host, connection_exc, is_host_addition, expect_host_to_be_down=False):
         is_down = host.signal_connection_failure(connection_exc)
